@@ -11,7 +11,7 @@ Import ListNotations.
    sub-language (flags anywhere, independently per bound, nested to any depth), every naming option
    vector, both constraint styles and every position, the generated class tree is the same *)
 Theorem C15_draft_spelling_same_tree :
-  forall o fc s p, gen o fc p (to_d6 s) = gen o fc p s.
+  forall o fc rq s p, gen o fc rq p (to_d6 s) = gen o fc rq p s.
 Proof. exact gen_draft_invariant. Qed.
 
 (* the record-level facts behind it: the three flag combinations normalise to their numeric form, and
